@@ -171,6 +171,7 @@ def run(ctx):
     check_writers(ctx, 1)
     pool.ob_moves_classified(ctx, 2)
     pool.ob_own_state(ctx, 2)
+    ob_errors_propagate(ctx, 3, "an oversold batch is refused with an error")
     pool.ob_deltas(ctx, 2)
     pool.ob_phases(ctx, 2)      # "returned in the tick it completes or fails": whatever can end a container runs before that tick's collection
     check_admission(ctx, 3)
